@@ -87,6 +87,30 @@ def rule_try_send(fm, rep, rid='R1'):
     rep.ob(rid, 'try_send/refusal-returns-its-error', g2, b.where(sb), 'Err(e) of send_metric is returned (through From)' if g2 else 'after a refused send returns %s' % [fmt(x)[:100] for x in r_err])
 
 
+def rule_send_metric_callers(fm, rep, rid='R1c'):
+    """Inside the library the line reaches the sink through one door only: MetricBackend::send_metric is called by
+    MetricBuilder::try_send (and helpers only it calls) - no metric method sends something of its own on the side
+    (an undecorated "reset" line, a second copy ..)."""
+    cad = fm.cad
+    from .qmodel import private_region
+    region = private_region(cad, [fm.try_send]) | {fm.try_send.path}
+    callers = []
+    n = 0
+    for b in cad.all_bodies:
+        if b.file.endswith('/test.rs') or '::tests::' in b.path:
+            continue
+        for bi, t in b.calls():
+            if callee_is(t, BACKEND + '::send_metric') and not b.blocks[bi]['cleanup']:
+                n += 1
+                if b.path not in region and not any(b.path.startswith(p_ + '::') for p_ in region):
+                    callers.append((b, bi))
+    rep.floor(rid, 'calls of MetricBackend::send_metric in the crate', n, 1)
+    rep.sites(n)
+    rep.ob(rid, 'send_metric-called-only-by-try_send', not callers, callers[0][0].where(callers[0][1]) if callers else '',
+           'the only caller of send_metric in the library is MetricBuilder::try_send' if not callers else
+           '%s hands a line to the sink on its own, outside the builder' % sorted(set(b.short() for b, _ in callers)))
+
+
 def rule_send_metric(fm, rep, rid='R2'):
     cad = fm.cad
     bs = [b for b in cad.all_bodies if b.impl_trait == BACKEND and (b.impl_self or '') == SC and b.name == 'send_metric']
@@ -1184,6 +1208,39 @@ def rule_nonempty(fm, rep, rid='R7'):
         if not errs:
             guarded = False
             why = 'the empty case does not become the Error state'
+    if guarded:
+        # ... and nothing else is turned away here: every place in from_fmt that builds the Error state lies behind the
+        # "empty" edge of the emptiness test and behind no other condition (a size limit, a kind whitelist ..)
+        fe = names(cad).mb_from_error
+        err_blocks = [bi for bi, t_ in ib.calls() if not ib.blocks[bi]['cleanup'] and fe is not None and t_.get('resolved') == fe.path]
+        for bi, blk in enumerate(ib.blocks):
+            for s in blk['stmts']:
+                if s['k'] == 'assign' and s['rv']['k'] == 'agg' and s['rv'].get('variant') == names(cad).v_error and s['rv'].get('path') == names(cad).mb_enum and not blk['cleanup']:
+                    err_blocks.append(bi)
+
+        def empty_edge(d, labels):
+            if d[0] == 'bin':
+                def atom(t_):
+                    return 'n' if _is_count_of_val(t_, fm, ib, T) else None
+                for lab in labels:
+                    if lab[0] == 'bool':
+                        try:
+                            if L.entails(L.guard_ge0(d, lab[1], atom), L.Lin({'n': -1}, 0)):
+                                return True
+                        except L.Unknown:
+                            if d[1] in ('Eq', 'Ne') and atom(d[2]) and d[3][0] == 'const' and d[3][2] == '0' and (d[1] == 'Eq') == lab[1]:
+                                return True
+                return False
+            if d[0] == 'call' and (any(strip_generics(x.path) == d[1] for x in preds) or term_callee_is(d, '::is_empty')):
+                return ('bool', True) in labels
+            return False
+        only = bool(err_blocks)
+        for eb in err_blocks:
+            gs_ = guards_of(T, eb) or []
+            if not gs_ or not all(empty_edge(norm(dt), labels) for dt, labels, _ in gs_):
+                only = False
+        rep.ob(rid, 'rejects-only-empty-lists', only, b.where(), 'from_fmt turns a value away only when it is a list without elements' if only else
+               'from_fmt also rejects values for another reason than "no elements": a valid value is refused and nothing is sent')
     if guarded:
         rep.good(rid, 'packed-values-non-empty', b.where(), 'a value without elements becomes InvalidInput before the sendable state exists (%d packed sources)' % len(srcs))
     else:
